@@ -557,6 +557,49 @@ def case_failed_compute(prog, cfg):
     return case
 
 
+def case_setting_failure(prog, cfg):
+    """C17: a table read that FAILS because of an inadmissible setting (more quadrature points than the tables provide), the setting then
+    corrected by assignment (the documented way to configure a model), compute(): the results are those of a stock built with the
+    corrected setting - nothing of the failed read is kept"""
+    sw = SW(prog, cfg["n_t"], cfg["labels"], grid=cfg.get("grid"))
+    dist, which = cfg["dist"], cfg["read"]
+    case = SCase("setting-failure", "InflowDrivenDSM.compute", dict(cfg_desc(cfg), history=[f"n_pts_per_interval = 12; read {which} (refused)", "n_pts_per_interval = 2", "compute()"]))
+
+    def go():
+        lm, _, _ = make_lifetime(sw, dist, cfg["over"], inflow_at="middle", n_pts=12)
+        k, r = run_guarded(lambda: sw.it.get_attr(lm, which))
+        if k != "raise":
+            return None
+        sw.it.set_attr(lm, "n_pts_per_interval", 2, None)
+        st = build_stock(sw, "InflowDrivenDSM", lm, inflow=sw.driver("in"))
+        sw.it.call_method(st, "compute")
+        return copy_res(results(st))
+
+    def ref():
+        lm, _, _ = make_lifetime(sw, dist, cfg["over"], inflow_at="middle", n_pts=2)
+        st = build_stock(sw, "InflowDrivenDSM", lm, inflow=sw.driver("in"))
+        sw.it.call_method(st, "compute")
+        return copy_res(results(st))
+    kind, got = run_guarded(go)
+    if kind == "ok" and got is None:
+        return case         # the read was not refused: nothing to judge here
+    kind2, want = run_guarded(ref)
+    if kind2 != "ok":
+        raise AnalysisAbort(f"reference object could not be computed: {want}")
+    if kind != "ok":
+        case.v("recompute", False, f"after the setting was corrected compute() ended with {kind}: {got}", f"LifetimeModel.{which}")
+        return case
+    bad = None
+    for k in want:
+        d = first_diff(got.get(k), want[k])
+        if d:
+            bad = f"{k}: {d}"
+            break
+    case.v("recompute", bad is None, f"after a refused read of {which} (inadmissible quadrature setting) and the correction of the setting, compute() gives other results than "
+                                     f"a freshly built stock with the corrected setting - {bad}", f"LifetimeModel.{which}")
+    return case
+
+
 def case_simple(prog, cfg):
     sw = SW(prog, cfg["n_t"], cfg["labels"], grid=cfg.get("grid"))
     sw.prm_values = cfg.get("prm_values")
